@@ -16,6 +16,17 @@
 (* the docstring's worked examples (ASSUME).  Every finished behaviour is  *)
 (* exported and replayed into the real code.                               *)
 (*                                                                         *)
+(* The output DIRECTORY of the command is a map from file names to chunks:  *)
+(* the machine writes one file per window (WriteFile), a later file of the  *)
+(* same name replacing an earlier one; declaratively a name holds ANY ONE   *)
+(* of the chunks that format to it.  TLC checks that a name which carries   *)
+(* the window determines the chunk (FilesOK), so with the default format    *)
+(* the file named after window [s, e) holds the source restricted to        *)
+(* [s, e) whatever the order and multiplicity of the windows.  Token        *)
+(* chunking distributes over concatenation of token lists and commutes     *)
+(* with renaming the tokens (TokConcat): the harness builds long            *)
+(* transcripts from the exported small cases on that ground.               *)
+(*                                                                         *)
 (* Frames are 0-based, windows/segments half-open <<start, end>>.          *)
 (***************************************************************************)
 EXTENDS PadSliceOps, TLC, Json
@@ -147,6 +158,12 @@ TokOut(tk, a, retain) == IF retain THEN tk ELSE <<tk[1], tk[2] - a, tk[3] - a>>
 ChunkTokens(refs, reflen, a, b, partial, retain) ==
   LET idx == SortSet({i \in 1..reflen : TokKeep(refs[i], a, b, partial)})
   IN [j \in 1..Len(idx) |-> TokOut(refs[idx[j]], a, retain)]
+\* independent formulation: left-to-right compaction (PadSliceOps.Compact) of the kept tokens
+ChunkTokensCompact(refs, reflen, a, b, partial, retain) ==
+  LET head == SubSeq(refs, 1, reflen)
+      kept == Compact(head, [i \in 1..reflen |-> TokKeep(refs[i], a, b, partial)])
+  IN [j \in 1..Len(kept) |-> TokOut(kept[j], a, retain)]
+Relabel(toks, d) == [i \in 1..Len(toks) |-> <<toks[i][1] + d, toks[i][2], toks[i][3]>>]
 \* the statement fixes "overlap" only for non-empty segments and slices
 TokDetermined(refs, reflen, a, b, partial) ==
   ~partial \/ (a < b /\ \A i \in 1..reflen : (refs[i][2] >= 0 /\ refs[i][3] >= 0) => refs[i][2] < refs[i][3])
@@ -178,6 +195,19 @@ UttLegal(uid, o) ==
   LET u == Pool[uid]
       ws == DirWindows(u, o)
   IN \A m \in 1..Len(ws) : LegalSlice(u.T, ws[m][1], ws[m][2], ModeOf(o))
+\* --format-utt: the name of a chunk is a function of the keys the format string mentions
+\* (utt_id always; idx, start, end).  A name is <<utt, idx, start, end>> with Om for a key
+\* that the format does not mention.
+Fmts == {"se", "ise", "i", "s"}
+NameOf(ch, f) ==
+  CASE f = "se"  -> <<ch.utt, Om, ch.s, ch.e>>          \* the default '{utt_id}.{start:05d}.{end:05d}'
+    [] f = "ise" -> <<ch.utt, ch.idx, ch.s, ch.e>>
+    [] f = "i"   -> <<ch.utt, ch.idx, Om, Om>>
+    [] f = "s"   -> <<ch.utt, Om, ch.s, Om>>             \* not injective: windows with one start clash
+Content(ch) == <<ch.feat, ch.ali, ch.ref>>
+\* the documented directory: one file per name, holding any one of the chunks formatted to it
+OutNames(chs, f) == {NameOf(chs[j], f) : j \in 1..Len(chs)}
+Holders(chs, f, nm) == {j \in 1..Len(chs) : NameOf(chs[j], f) = nm}
 \* validate_spect_data_set's conditions, as far as the abstraction carries them
 WellFormedUtt(T, hasAli, ali, hasRef, ref) ==
   /\ hasAli => Len(ali) = T
@@ -253,8 +283,10 @@ Decl(cs, keepAtEq) ==
 VARIABLES c,     \* the case
           pos,   \* windows tried / frames / segments / tokens / utterances scanned
           acc,   \* fixed, ref: windows; ali: runs (the last one still open); tok: tokens; dir: chunks
-          pc     \* "scan", "done", "raised" (dir only)
-vars == <<c, pos, acc, pc>>
+          pc,    \* "scan", "write" (dir only), "done", "raised" (dir only)
+          written,  \* dir: number of chunks of acc whose files have been written
+          files     \* dir: per format, file name -> index (in acc) of the chunk the file holds
+vars == <<c, pos, acc, pc, written, files>>
 
 ScanEnd(cs) ==
   CASE cs.kind = "fixed" -> cs.len + 1            \* never reached: the scan stops at the first rejected window
@@ -265,6 +297,7 @@ ScanEnd(cs) ==
 
 Start(cs) ==
   /\ c = cs /\ pos = 0 /\ acc = <<>>
+  /\ written = 0 /\ files = [f \in Fmts |-> <<>>]
   /\ pc = IF ScanEnd(cs) = 0 THEN "done" ELSE "scan"
 
 \* (the filters are written `... = TRUE` so that TLC evaluates them as plain Boolean values: while
@@ -292,7 +325,7 @@ Slide ==          \* fixed: try window number pos
      THEN /\ acc' = Append(acc, FixedWin(c.wt, c.valid, c.lobe, pos))
           /\ pos' = pos + 1 /\ pc' = "scan"
      ELSE /\ pc' = "done" /\ UNCHANGED <<acc, pos>>
-  /\ UNCHANGED c
+  /\ UNCHANGED <<c, written, files>>
 
 Frame ==          \* ali: frame pos either opens a new run or extends the open one
   /\ pc = "scan" /\ c.kind = "ali"
@@ -300,32 +333,42 @@ Frame ==          \* ali: frame pos either opens a new run or extends the open o
             THEN Append(acc, <<pos, pos + 1>>)
             ELSE [acc EXCEPT ![Len(acc)] = <<acc[Len(acc)][1], pos + 1>>]
   /\ pos' = pos + 1 /\ pc' = Finish(pos + 1)
-  /\ UNCHANGED c
+  /\ UNCHANGED <<c, written, files>>
 
 Segment ==        \* ref: listed segment pos + 1
   /\ pc = "scan" /\ c.kind = "ref"
   /\ acc' = IF RefKeep(c.seq[pos + 1], c.wt, c.valid, c.lobe, Other(c), FALSE)
             THEN Append(acc, RefShift(c.seq[pos + 1], c.wt, c.lobe)) ELSE acc
   /\ pos' = pos + 1 /\ pc' = Finish(pos + 1)
-  /\ UNCHANGED c
+  /\ UNCHANGED <<c, written, files>>
 
 Token ==          \* tok: listed token pos + 1
   /\ pc = "scan" /\ c.kind = "tok"
   /\ acc' = IF TokKeep(c.seq[pos + 1], c.a, c.b, c.partial)
             THEN Append(acc, TokOut(c.seq[pos + 1], c.a, c.retain)) ELSE acc
   /\ pos' = pos + 1 /\ pc' = Finish(pos + 1)
-  /\ UNCHANGED c
+  /\ UNCHANGED <<c, written, files>>
 
 ChunkUtt ==       \* dir: the next utterance in sorted order; a window whose padding is not legal for
                   \* the mode makes the command raise (documented NotImplementedError / RuntimeError)
   /\ pc = "scan" /\ c.kind = "dir"
   /\ IF UttLegal(SortSet(c.dir.utts)[pos + 1], c.opt)
-     THEN /\ acc' = acc \o ChunksOfUtt(SortSet(c.dir.utts)[pos + 1], c.opt, c.dir)
-          /\ pos' = pos + 1 /\ pc' = Finish(pos + 1)
+     THEN \E new \in {ChunksOfUtt(SortSet(c.dir.utts)[pos + 1], c.opt, c.dir)} :
+            /\ acc' = acc \o new
+            /\ pos' = pos + 1
+            /\ pc' = IF Len(new) > 0 THEN "write" ELSE Finish(pos + 1)
      ELSE /\ pc' = "raised" /\ UNCHANGED <<acc, pos>>
-  /\ UNCHANGED c
+  /\ UNCHANGED <<c, written, files>>
 
-Next == Slide \/ Frame \/ Segment \/ Token \/ ChunkUtt
+WriteFile ==      \* dir: the next chunk of the utterance is saved under its name (for every format at
+                  \* once); a file of that name written before is replaced
+  /\ pc = "write"
+  /\ written' = written + 1
+  /\ files' = [f \in Fmts |-> (NameOf(acc[written + 1], f) :> (written + 1)) @@ files[f]]
+  /\ pc' = IF written + 1 < Len(acc) THEN "write" ELSE Finish(pos)
+  /\ UNCHANGED <<c, pos, acc>>
+
+Next == Slide \/ Frame \/ Segment \/ Token \/ ChunkUtt \/ WriteFile
 Spec == Init /\ [][Next]_vars
 
 \* what the machine has computed
@@ -334,7 +377,11 @@ Result == IF c.kind = "ali" THEN WindowsFromRuns(acc, c.wt, c.valid, c.lobe) ELS
 (***************************************************************************)
 (* Design invariants                                                       *)
 (***************************************************************************)
-TypeOK == pc \in {"scan", "done", "raised"} /\ pos \in Nat /\ (pc = "raised" => c.kind = "dir")
+TypeOK ==
+  /\ pc \in {"scan", "write", "done", "raised"} /\ pos \in Nat
+  /\ (pc \in {"raised", "write"} => c.kind = "dir")
+  /\ written \in 0..Len(acc) /\ (c.kind # "dir" => written = 0)
+  /\ DOMAIN files = Fmts
 
 ScanAgrees == pc = "done" => Result = Decl(c, FALSE)
 
@@ -415,11 +462,69 @@ DirOK ==
                  /\ c.dir.hasAli => /\ Len(ch.ali) = Len(ch.feat)
                                     /\ \A i \in 1..Len(ch.ali) : ch.ali[i] = At(u.ali, ch.s + i - 1, ModeOf(o))
                  /\ c.dir.hasRef =>
-                      {ch.ref[i][1] : i \in 1..Len(ch.ref)} =
-                        {tk[1] : tk \in {u.ref[i] : i \in {q \in 1..Len(u.ref) : TokKeep(u.ref[q], ch.s, ch.e, o.partial)}}}
+                      /\ {ch.ref[i][1] : i \in 1..Len(ch.ref)} =
+                           {tk[1] : tk \in {u.ref[i] : i \in {q \in 1..Len(u.ref) : TokKeep(u.ref[q], ch.s, ch.e, o.partial)}}}
+                      \* ... in the order of the source (left-to-right compaction)
+                      /\ ch.ref = ChunkTokensCompact(u.ref, Len(u.ref), ch.s, ch.e, o.partial, o.retain)
                  \* ... and the new directory is well-formed
                  /\ (~o.partial /\ ~o.retain) =>
                       WellFormedUtt(Len(ch.feat), c.dir.hasAli, ch.ali, c.dir.hasRef, ch.ref)
+
+(***************************************************************************)
+(* Token chunking distributes over concatenation and commutes with         *)
+(* renaming: for every way of cutting the list in two, chunking the parts  *)
+(* and concatenating gives the chunk of the whole (so, by induction, the   *)
+(* chunk of r1 \o ... \o rk is the concatenation of the chunks of the ri,  *)
+(* in order), and the token ids are carried along untouched.  The harness  *)
+(* builds transcripts of many tokens from exported cases on this ground.   *)
+(***************************************************************************)
+TokConcat ==
+  c.kind = "tok" =>
+    LET n == InLen(c)
+        whole == ChunkTokens(c.seq, n, c.a, c.b, c.partial, c.retain)
+        part(i, j) == ChunkTokens(SubSeq(c.seq, i, j), j - i + 1, c.a, c.b, c.partial, c.retain)
+    IN /\ \A k \in 0..n : part(1, k) \o part(k + 1, n) = whole
+       /\ ChunkTokens(Relabel(c.seq, 100), n, c.a, c.b, c.partial, c.retain) = Relabel(whole, 100)
+       /\ whole = ChunkTokensCompact(c.seq, n, c.a, c.b, c.partial, c.retain)
+       /\ \A k \in 0..n :
+            TokDetermined(c.seq, n, c.a, c.b, c.partial) <=>
+              /\ TokDetermined(SubSeq(c.seq, 1, k), k, c.a, c.b, c.partial)
+              /\ TokDetermined(SubSeq(c.seq, k + 1, n), n - k, c.a, c.b, c.partial)
+
+(***************************************************************************)
+(* The written directory.  The machine's files (later replaces earlier)    *)
+(* are one of the documented outcomes (any one of the chunks of that       *)
+(* name); a name that carries the window determines the chunk, so for the  *)
+(* default format the outcome is unique and the file named after [s, e)    *)
+(* holds the source restricted to [s, e) (virtual-index form); a name      *)
+(* that carries the index is unique.                                       *)
+(***************************************************************************)
+FilesOK ==
+  (c.kind = "dir" /\ pc = "done") =>
+    LET o == c.opt IN
+    /\ written = Len(acc)
+    /\ \A f \in Fmts :
+         /\ DOMAIN files[f] = OutNames(acc, f)
+         /\ \A nm \in DOMAIN files[f] : files[f][nm] \in Holders(acc, f, nm)
+    /\ \A f \in {"se", "ise"} : \A i, j \in 1..Len(acc) :
+         NameOf(acc[i], f) = NameOf(acc[j], f) => Content(acc[i]) = Content(acc[j])
+    /\ \A f \in {"i", "ise"} : Cardinality(OutNames(acc, f)) = Len(acc)
+    /\ \A nm \in DOMAIN files["se"] :
+         LET ch == acc[files["se"][nm]]
+             u == Pool[nm[1]]
+         IN /\ ch.feat = SliceIdx(Id(u.T), nm[3], nm[4], ModeOf(o))
+            /\ c.dir.hasAli => ch.ali = SliceIdx(u.ali, nm[3], nm[4], ModeOf(o))
+            /\ c.dir.hasRef => ch.ref = ChunkTokensCompact(u.ref, Len(u.ref), nm[3], nm[4], o.partial, o.retain)
+
+\* export form of the directory: per format, the names in order of first use, with the chunk the
+\* machine left in the file and every chunk the documentation allows there (1-based indices into chunks)
+FirstOf(S) == CHOOSE x \in S : \A y \in S : x <= y
+FileGroups(f) ==
+  LET firsts == SortSet({FirstOf(Holders(acc, f, nm)) : nm \in OutNames(acc, f)})
+  IN [g \in 1..Len(firsts) |->
+        LET nm == NameOf(acc[firsts[g]], f)
+        IN [name |-> nm, wrote |-> files[f][nm], any |-> SortSet(Holders(acc, f, nm)),
+            same |-> \A i, j \in Holders(acc, f, nm) : Content(acc[i]) = Content(acc[j])]]
 
 (***************************************************************************)
 (* Worked examples of the SliceSpectData docstring                         *)
@@ -469,5 +574,6 @@ Export ==
       [] c.kind = "dir" ->
            Emit([kind |-> c.kind, utts |-> SortSet(c.dir.utts), hasAli |-> c.dir.hasAli, hasRef |-> c.dir.hasRef,
                  src |-> [i \in 1..Cardinality(c.dir.utts) |-> Pool[SortSet(c.dir.utts)[i]]],
-                 opt |-> c.opt, legal |-> pc = "done", chunks |-> IF pc = "done" THEN Result ELSE <<>>])
+                 opt |-> c.opt, legal |-> pc = "done", chunks |-> IF pc = "done" THEN Result ELSE <<>>,
+                 files |-> IF pc = "done" THEN [f \in Fmts |-> FileGroups(f)] ELSE [f \in Fmts |-> <<>>]])
 =============================================================================
